@@ -46,13 +46,15 @@ theorem accept_iff_wellformed (L : Lists) (ss : List Schedule) :
 example : validateSchedules tables ⟨[none], [none, some 2], [], [some 3]⟩
     [.items [Item.mk "state" 0, Item.mk "mprocess" 0, Item.mk "povm" 1]] = .ok () := by decide
 
-/-- **C20.b `reject_item_or_order`** (which of the two exceptions, and where; no restriction on the schedules): if a
-schedule list is rejected, the result is always the schedule-item or the schedule-order error, decided by the first
+/-- **C20.b `reject_item_or_order`** (which of the two exceptions, and where). Scope: every schedule is a *sequence*
+(list, tuple, …) or is not iterable at all (`Schedule.isSeq`); iterables that are not sequences (generator, dict, set)
+are excluded here — for them the claim is FALSE on the code as it is, see `reject_is_schedule_error_nonSequence_fails`.
+If such a schedule list is rejected, the result is always the schedule-item or the schedule-order error, decided by the first
 schedule that is not well formed: a schedule that cannot be iterated (`None`, an int …) gives the schedule-item error
 (no item position); if one of its items is malformed the schedule-item error carries that schedule's position and the
 position `j` of its *first* malformed item (all items before `j` are well-formed pairs); otherwise it is the
 schedule-order error for that schedule. -/
-theorem reject_item_or_order (L : Lists) (ss : List Schedule) (e : Err)
+theorem reject_item_or_order (L : Lists) (ss : List Schedule) (e : Err) (hseq : ∀ s ∈ ss, s.isSeq = true)
     (h : validateSchedules tables L ss = .error e) :
     ∃ pre s post, ss = pre ++ s :: post ∧ (∀ x ∈ pre, WellFormed L x) ∧ ¬ WellFormed L s ∧
       ((s = .nonIterable ∧ e = .itemNoPos pre.length) ∨
@@ -62,7 +64,7 @@ theorem reject_item_or_order (L : Lists) (ss : List Schedule) (e : Err)
        (∃ (its : List Item) (ps : List (String × Int)) (r : OrderErr), s = .items its ∧ e = .order pre.length r ∧
           its = ps.map (fun p => Item.mk p.1 p.2) ∧ (∀ p ∈ ps, InRange L p) ∧ ¬ OrderRule (ps.map (·.1)))) := by
   obtain ⟨pre, s, post, h1, h2, h3, h4⟩ :=
-    validateSchedulesAux_error tables tables_minLen tables_kindsAreKeys L ss 0 e h
+    validateSchedulesAux_error tables tables_minLen tables_kindsAreKeys L ss 0 e hseq h
   refine ⟨pre, s, post, h1, fun x hx => (schedOk_iff_wellFormed L x).1 (h2 x hx),
     fun hw => h3 ((schedOk_iff_wellFormed L _).2 hw), ?_⟩
   rcases h4 with ⟨hs, he⟩ | ⟨its, j, ex, hs, he, hj⟩ | ⟨its, names, r, hs, he, hn, ho⟩
@@ -81,11 +83,12 @@ theorem reject_item_or_order (L : Lists) (ss : List Schedule) (e : Err)
     have := (validateOrder_ok_iff tables tables_minLen names).2 (by rw [g2]; exact (orderOk_iff_orderRule _).2 hr)
     rw [ho] at this; cases this
 
-/-- every rejection is one of the two schedule errors (corollary; was violated before fix d4e3672, D13) -/
-theorem reject_is_schedule_error (L : Lists) (ss : List Schedule) (e : Err)
+/-- every rejection of sequences / non-iterables is one of the two schedule errors (corollary; was violated for
+non-iterables before fix d4e3672, D13; still violated for non-sequence iterables, D18 below) -/
+theorem reject_is_schedule_error (L : Lists) (ss : List Schedule) (e : Err) (hseq : ∀ s ∈ ss, s.isSeq = true)
     (h : validateSchedules tables L ss = .error e) :
     (∃ i, e = .itemNoPos i) ∨ (∃ i j ex, e = .item i j ex) ∨ (∃ i r, e = .order i r) := by
-  obtain ⟨pre, s, post, _, _, _, h4⟩ := reject_item_or_order L ss e h
+  obtain ⟨pre, s, post, _, _, _, h4⟩ := reject_item_or_order L ss e hseq h
   rcases h4 with ⟨_, he⟩ | ⟨_, j, ex, _, _, _, _, he, _⟩ | ⟨_, _, r, _, he, _⟩
   · exact Or.inl ⟨_, he⟩
   · exact Or.inr (Or.inl ⟨_, j, ex, he⟩)
@@ -93,6 +96,30 @@ theorem reject_is_schedule_error (L : Lists) (ss : List Schedule) (e : Err)
 
 example : validateSchedules tables ⟨[none], [none], [], []⟩
     [.items [Item.mk "state" 0, Item.mk "povm" 0], .nonIterable] = .error (.itemNoPos 1) := by decide
+
+/-- `reject_item_or_order` instantiated: both hypotheses hold for a list whose second schedule has an order error -/
+example := reject_item_or_order ⟨[none], [none], [], []⟩
+  [.items [Item.mk "state" 0, Item.mk "povm" 0], .items [Item.mk "povm" 0, Item.mk "state" 0]] (.order 1 .first)
+  (by decide) (by decide)
+
+/-- **open finding D18, negation witness** — an iterable that is not a sequence (generator, dict, set) whose items are
+all fine is NOT rejected with the schedule-item / schedule-order error: `_validate_schedule_order` calls
+`len(schedule)` / `schedule[0]` and only `ValueError` is converted, so `TypeError` (generator, set) or `KeyError` (dict)
+escapes. (A malformed item is still reported as the schedule-item error, a too short dict / set as the order error.) -/
+theorem reject_is_schedule_error_nonSequence_fails :
+    ¬ (∀ (L : Lists) (ss : List Schedule) (e : Err), validateSchedules tables L ss = .error e →
+        (∃ i, e = .itemNoPos i) ∨ (∃ i j ex, e = .item i j ex) ∨ (∃ i r, e = .order i r)) := by
+  intro h
+  have := h ⟨[none], [none], [], []⟩ [.nonSequence .keyed [Item.mk "state" 0, Item.mk "povm" 0]] (.escaped .keyError)
+    (by decide)
+  rcases this with ⟨_, h⟩ | ⟨_, _, _, h⟩ | ⟨_, _, h⟩ <;> cases h
+
+example : validateSchedules tables ⟨[none], [none], [], []⟩ [.nonSequence .noLen [Item.mk "state" 0, Item.mk "povm" 0]] =
+    .error (.escaped .typeError) := by decide
+example : validateSchedules tables ⟨[none], [none], [], []⟩ [.nonSequence .unordered [Item.mk "state" 0]] =
+    .error (.order 0 .tooShort) := by decide
+example : validateSchedules tables ⟨[none], [none], [], []⟩ [.nonSequence .noLen [Item.mk "state" 0, Item.mk "povm" 7]] =
+    .error (.item 0 1 .indexError) := by decide
 
 /-- the malformed item shapes and the Python exception `_validate_schedule_item` raises for each
 (all three are converted to the schedule-item error) -/
@@ -150,6 +177,22 @@ theorem setter_same_rule (st : ExpState) (w : Which) (v : ObjList) :
   | error e =>
     refine Or.inr ⟨⟨e, rfl⟩, fun hw => ?_⟩
     rw [(accept_iff_wellformed _ _).2 hw] at h; cases h
+
+/-- a failing list setter raises exactly the error of validating the current schedules against the would-be lists
+(so `reject_item_or_order` classifies it) -/
+theorem setter_error_iff (st : ExpState) (w : Which) (v : ObjList) (e : Err) :
+    step tables st (.setList w v) = .error e ↔ validateSchedules tables (st.lists.set w v) st.schedules = .error e := by
+  rw [step_setList]
+  cases validateSchedules tables (st.lists.set w v) st.schedules <;> simp
+
+/-- … and the `schedules` setter the error of validating the new schedules against the current lists -/
+theorem schedules_setter_error_iff (st : ExpState) (ss : List Schedule) (e : Err) :
+    step tables st (.setSchedules ss) = .error e ↔ validateSchedules tables st.lists ss = .error e := by
+  simp only [step]
+  cases validateSchedules tables st.lists ss <;> simp
+
+example : step tables ⟨⟨[none], [none], [], []⟩, [.items [Item.mk "state" 0, Item.mk "povm" 0]]⟩ (.setList .povm []) =
+    .error (.item 0 1 .indexError) := by decide
 
 /-- the `schedules` setter: same rule against the current lists -/
 theorem schedules_setter_same_rule (st : ExpState) (ss : List Schedule) :
@@ -274,6 +317,27 @@ example : tomoCtor tables .qmpt 1 1 (.list [.items [Item.mk "state" 0, Item.mk "
 example : tomoCtor tables .qmpt 1 1 (.list [.items [Item.mk "state" 0, Item.mk "mprocess" 0]]) = .error (.value 0) := by
   decide
 
+/-- **C20.e' `tomo_reject_kinds`** (reject side, contributed by the peer review): a tomography constructor rejects a schedule list only with an Experiment schedule
+error or its own ValueError - never IndexError (D14), never the `unmodelled` branch -/
+theorem tomo_reject_kinds (c : Cls) (nS nP : Nat) (ss : List Schedule) (e : TomoErr)
+    (h : tomoCtor tables c nS nP (.list ss) = .error e) :
+    (∃ x, e = .exp x ∧ validateSchedules tables (tomoLists c.spec nS nP) ss = .error x) ∨ ∃ j, e = .value j := by
+  simp only [tomoCtor, construct] at h
+  cases hv : validateSchedules tables (tomoLists c.spec nS nP) ss with
+  | error x => rw [hv] at h; injection h with h; exact Or.inl ⟨x, h.symm, rfl⟩
+  | ok u =>
+    rw [hv] at h
+    obtain ⟨pss, h1, h2⟩ := (all_wellFormed_iff _ ss).1 ((accept_iff_wellformed' _ ss).1 hv)
+    subst h1
+    simp only [mapM_pairs?_toSched] at h
+    cases h3 : tomoValidate c.spec pss 0 with
+    | error e' =>
+      rw [h3] at h; injection h with h; subst h
+      exact Or.inr (tomoValidate_no_index c pss 0 e' (fun ps hp => (h2 ps hp).2) h3)
+    | ok u => rw [h3] at h; cases h
+
+example : tomoCtor tables .qpt 1 1 (.list [.items [Item.mk "state" 0, Item.mk "povm" 0]]) = .error (.value 0) := by decide
+
 /-- the `"all"` expansions are accepted by their own class, for every number of states and POVMs -/
 theorem all_accepted (c : Cls) (nS nP : Nat) :
     tomoCtor tables c nS nP (.str "all") = .ok (allSchedules c nS nP) := by
@@ -318,7 +382,10 @@ theorem unsupported_string_rejected (c : Cls) (nS nP : Nat) (s : String) (h : s 
 
 /-- **C20.f `accepted_executable`** — an accepted schedule that ends in its only POVM and refers to no `None`
 placeholder is executed by `calc_prob_dist` (index check, look-ups, composition from the state outwards, `.ps`) and
-yields a distribution whose outcome shape is (outcome counts of its measurement processes in order, then of the POVM). -/
+yields a distribution whose outcome shape is (outcome counts of its measurement processes in order, then of the POVM).
+What is proved is executability and the *shape* (type-level: the dispatch of `_compose_qoperations`, hand-modelled in
+`compose`); that the numbers are non-negative, sum to one and follow the Born rule is established by the oracle on the
+real code only (harness c20.py, incl. zero-probability branches and tensor-product objects). -/
 theorem accepted_executable (st : ExpState) (i : Nat) (ps : List (String × Int)) (outc : String × Int → Nat)
     (hi : st.schedules[i]? = some (.items (ps.map fun p => Item.mk p.1 p.2)))
     (hr : ∀ p ∈ ps, InRange st.lists p) (ho : OrderRule (ps.map (·.1)))
@@ -454,5 +521,35 @@ theorem accepted_lookup_total (L : Lists) (s : Schedule) (h : WellFormed L s) :
 
 example : validateSchedules tables ⟨[none, some 1], [some 2], [some 1], []⟩
     [.items [Item.mk "state" 1, Item.mk "gate" 0, Item.mk "povm" 0]] = .ok () := by decide
+
+
+/-! ## instantiations of `accepted_executable` / `none_placeholder_rejected` (hypotheses jointly satisfiable, from the peer review) -/
+
+def L0 : Lists := ⟨[some 1, none], [some 2, some 3], [some 1], [some 2, some 3]⟩
+def ps0 : List (String × Int) := [("state", 0), ("mprocess", 0), ("mprocess", 1), ("gate", 0), ("povm", 1)]
+def st0 : ExpState := ⟨L0, [.items (ps0.map fun p => Item.mk p.1 p.2)]⟩
+def outc0 (p : String × Int) : Nat := match objOf L0 p with | some (some m) => m | _ => 0
+
+-- accepted_executable: all five hypotheses jointly satisfiable, conclusion is informative
+example : calcProbDist st0 (.int 0) = .ok [2, 3, 3] := by
+  have h := accepted_executable st0 0 ps0 outc0 rfl
+    (by intro p hp; simp [ps0] at hp; rcases hp with rfl | rfl | rfl | rfl | rfl <;> simp [InRange, st0, L0])
+    (by simp [OrderRule, ps0]) (by simp [ps0])
+    (by intro p hp; simp [ps0] at hp; rcases hp with rfl | rfl | rfl | rfl | rfl <;> decide)
+  simpa [ps0, outc0, objOf, L0, pyIndex, Lists.get?] using h
+
+-- none_placeholder_rejected instantiation
+def ps1pre : List (String × Int) := [("state", 0)]
+def st1 : ExpState :=
+  ⟨L0, [.items ((ps1pre ++ ("state", 1) :: [(("povm", 0) : String × Int)]).map fun (p : String × Int) => Item.mk p.1 p.2)]⟩
+example : calcProbDist st1 (.int 0) = .error (.isNone 1) :=
+  none_placeholder_rejected st1 0 outc0 ps1pre ("state", 1) [("povm", 0)] (by rfl)
+    (by intro q hq; simp [ps1pre] at hq; subst hq; decide) (by decide)
+
+
+/-- `reachable_wellformed` through `construct` and a setter history (one failing, one succeeding call) -/
+example : ∀ s ∈ (runOps tables st0 [.setList .povm [], .setList .gate [some 1, none]]).2.schedules,
+    WellFormed (runOps tables st0 [.setList .povm [], .setList .gate [some 1, none]]).2.lists s :=
+  reachable_wellformed L0 st0.schedules st0 (by decide) _
 
 end QM.C20
